@@ -197,7 +197,7 @@ ENTRY = {
     "FullLC77.from_bits": ("pdu", lambda b: FullLinkControl.from_bits(bitarray("00000000") + bitarray("00000000") + b), lambda hx, t: (hx.ba(61, t),)),
     "Rate34Data.from_bits": ("pdu", Rate34Data.from_bits, _bits(144)),
     "Rate1Data.from_bits": ("pdu", Rate1Data.from_bits, _bits(192)),
-    "UDPIPv4.from_bits": ("pdu", UDPIPv4CompressedHeader.from_bits, _bits(56)),
+    "UDPIPv4.from_bits": ("pdu", UDPIPv4CompressedHeader.from_bits, lambda hx, t: (hx.ba(16, t + "i") + bitarray("00010010") + hx.ba(32, t),)),
     "ServiceOptions(defaults).as_bits": ("pdu", lambda: ServiceOptions().as_bits(), lambda hx, t: ()),
     "DataHeader(defaults).as_bits": ("pdu", _default_data_header, lambda hx, t: (hx.int(24, t),)),
     "RCP(defaults).as_bytes": ("pdu", _default_rcp, lambda hx, t: ()),
@@ -226,7 +226,7 @@ ENTRY = {
 # application PDUs of every implemented Hytera (service, opcode): frames as in props/C12.py (payload octets, reliable flag, checksum symbolic)
 def _add_hdap_entries():
     from props import C12
-    from okdmr.dmrlib.hytera.pdu.hytera_service_type import HyteraServiceType
+    from okdmr.dmrlib.hytera.pdu.hdap import HyteraServiceType
     specs = dict(C12.SPECS["quick"])
     S = lambda n: [None] * n
     for nm in list(specs):
@@ -536,9 +536,15 @@ def same_value(a, b, depth=0):
     if isinstance(a, dict) and isinstance(b, dict):
         if depth >= 4:
             return 1 if len(a) == len(b) else 0          # configuration tables hanging off a result: same size is all that is compared
-        if set(a) != set(b):
+        ka, kb = list(a), list(b)
+        if any(type(k).__module__.startswith("sxl") for k in ka + kb):
+            # keys that are symbolic (e.g. an enum looked up from a symbolic octet): both runs insert in the same order, compare item by item
+            if len(ka) != len(kb):
+                return 0
+            return AND(*[AND(same_value(x, y, depth + 1), same_value(va, vb, depth + 1)) for (x, va), (y, vb) in zip(list(a.items()), list(b.items()))]) if ka else 1
+        if set(ka) != set(kb):
             return 0
-        return AND(*[same_value(a[k], b[k], depth + 1) for k in a]) if a else 1
+        return AND(*[same_value(a[k], b[k], depth + 1) for k in ka]) if ka else 1
     if isinstance(a, enum.Enum) or isinstance(b, enum.Enum):
         return feq(a, b)
     if hasattr(a, "__dict__") and not isinstance(a, type) and depth < 6:
